@@ -200,9 +200,10 @@ fn read_all(fd: i32, cap: usize) -> Vec<u8> {
     all
 }
 
-/// Run `f` in a forked child; its return string comes back through a pipe.
-/// The calling process must be single-threaded.
-pub fn fork_run(timeout_s: u32, f: impl FnOnce() -> String) -> ChildRes {
+/// Run `f` in a forked child. `f` gets an `emit` function; every emitted
+/// string is one line on a pipe the parent collects (so results produced
+/// before a crash survive it). The calling process must be single-threaded.
+pub fn fork_stream(f: impl FnOnce(&mut dyn FnMut(&str))) -> (End, Vec<String>, String) {
     let mut rp = [0i32; 2];
     let mut ep = [0i32; 2];
     unsafe {
@@ -219,25 +220,29 @@ pub fn fork_run(timeout_s: u32, f: impl FnOnce() -> String) -> ChildRes {
             libc::fcntl(ep[1], libc::F_SETFL, fl | libc::O_NONBLOCK);
             libc::dup2(ep[1], 2);
             libc::close(ep[1]);
-            libc::alarm(timeout_s);
         }
-        let s = f();
-        let b = s.as_bytes();
-        let mut off = 0;
-        while off < b.len() {
-            let n = unsafe { libc::write(rp[1], b[off..].as_ptr() as *const _, b.len() - off) };
-            if n <= 0 {
-                unsafe { libc::_exit(97) };
+        let fd = rp[1];
+        let mut emit = |s: &str| {
+            let mut line = Vec::with_capacity(s.len() + 1);
+            line.extend_from_slice(s.as_bytes());
+            line.push(b'\n');
+            let mut off = 0;
+            while off < line.len() {
+                let n = unsafe { libc::write(fd, line[off..].as_ptr() as *const _, line.len() - off) };
+                if n <= 0 {
+                    unsafe { libc::_exit(97) };
+                }
+                off += n as usize;
             }
-            off += n as usize;
-        }
+        };
+        f(&mut emit);
         unsafe { libc::_exit(0) };
     }
     unsafe {
         libc::close(rp[1]);
         libc::close(ep[1]);
     }
-    let result = read_all(rp[0], 64 << 20);
+    let result = read_all(rp[0], 256 << 20);
     let stderr = read_all(ep[0], 1 << 20);
     unsafe {
         libc::close(rp[0]);
@@ -271,7 +276,23 @@ pub fn fork_run(timeout_s: u32, f: impl FnOnce() -> String) -> ChildRes {
         // sanitizer reports of a child must reach the driver
         eprintln!("{}", stderr);
     }
-    ChildRes { end, result: String::from_utf8(result).ok().filter(|s| !s.is_empty()), stderr }
+    // only complete lines count
+    let text = String::from_utf8_lossy(&result).into_owned();
+    let mut lines: Vec<String> = text.split('\n').map(|l| l.to_string()).collect();
+    let last = lines.pop().unwrap_or_default();
+    let _ = last; // an unterminated tail was being written when the child died
+    (end, lines, stderr)
+}
+
+/// One execution in its own child.
+pub fn fork_run(timeout_s: u32, f: impl FnOnce() -> String) -> ChildRes {
+    let (end, mut lines, stderr) = fork_stream(|emit| {
+        unsafe { libc::alarm(timeout_s) };
+        let s = f();
+        emit(&s);
+    });
+    let result = if lines.is_empty() { None } else { Some(lines.remove(0)) };
+    ChildRes { end, result, stderr }
 }
 
 /// Name of an abnormal end for signatures.
